@@ -4,6 +4,7 @@ import (
 	"fmt"
 	"sort"
 	"strconv"
+	"strings"
 	"testing"
 
 	"github.com/herumi/bls-eth-go-binary/bls"
@@ -50,6 +51,10 @@ func dkgMatrix(cfgs [][2]int) []dkgCase {
 				for _, f := range contribTampers {
 					out = append(out, dkgCase{n, t, "contribute", i, j, "req-" + f})
 					out = append(out, dkgCase{n, t, "contribute", i, j, "reply-" + f})
+				}
+				// the genuine contribution, then the same participant's contribution once more in altered form
+				for _, f := range contribTampers {
+					out = append(out, dkgCase{n, t, "contribute", i, j, "redelivered-" + f})
 				}
 			}
 		}
@@ -160,7 +165,9 @@ func runDKGFaults(t *testing.T, rc *RunCtx) {
 	// A second planned fault may be unreachable because the first one ends the generation early.
 	dupOnly := true
 	for k := range c.Net.Fired {
-		if len(k) < 10 || k[len(k)-10:] != ":duplicate" {
+		// A message arriving twice (identical, or the second time altered, after the genuine one was accepted) may
+		// legitimately leave the generation intact.
+		if (len(k) < 10 || k[len(k)-10:] != ":duplicate") && !strings.Contains(k, ":redelivered-") {
 			dupOnly = false
 		}
 	}
